@@ -40,7 +40,8 @@ class Tok:
 
 def I(x):
     """integers only (numpy scalars, IntEnum -> int)"""
-    if isinstance(x, bool): return int(x)
+    if isinstance(x, (bool, numpy.bool_)): return int(x)
+    if isinstance(x, numpy.ndarray) and x.ndim == 0: return I(x.item())
     if isinstance(x, (int, numpy.integer)): return int(x)
     if isinstance(x, float) and x == int(x): return int(x)
     if isinstance(x, numpy.floating) and float(x) == int(x): return int(x)
